@@ -16,7 +16,7 @@ from lib.sut import CasadiEngine, NumpyEngine, cs, np
 
 ID = "C07"
 RULE = (
-    "case = growth-grammar network (valid by construction; with probability 1/4 one or two edits that break one "
+    "case = growth-grammar network (valid by construction; element names id-like, drawn or clashing; with probability 1/4 one or two edits that break one "
     "documented validity condition) x boundary-heavy finite admissible state (each entry exactly 0 with probability "
     "1/3; model 0/0 excluded by construction) x subset of positivity options x NumPy variable source {user float "
     "arrays, user int arrays, engine 'empty'/'rand'/'randn'/constant} x CasADi {SX,MX} x compact in -1..3 x more_out. "
@@ -76,7 +76,7 @@ def apply_edit(sp, e, draw):
 
 @st.composite
 def cases(draw):
-    sp = draw(gen_nets.specs(with_plan=True))
+    sp = draw(gen_nets.specs(with_plan=True, names=draw(st.sampled_from(["mixed", "mixed", "clash"]))))
     edits = []
     if draw(st.integers(0, 3)) == 0:
         edits = draw(st.lists(st.sampled_from(EDITS), min_size=1, max_size=2))
